@@ -104,6 +104,9 @@ def main():
         for j in more:
             j["n_total"] = j["conf"].pop("_nt", 32) * 2
         jobs += more
+    # synthetic histories that end inside the termination window but not at exactly beta = 1 (ESS-limited temperature in (1 - 1e-4, 1))
+    for i, c in enumerate([dict(clustering=False), dict(clustering=True, sample="rwm", evaluation="vector")]):
+        jobs.append({"conf": dict(c, n_particles=8), "seed": 1250 + i + ck.seed, "label": f"late-crossing#{i}", "n_total": 24, "oracle": "late_crossing", "flags": FLAGS[:4]})
     sc, traces = sysrun.system_part(ck, "C12", jobs, nontrivial)
     cov.update(sc)
     cov.update(sysrun.selftest(traces[0]))
